@@ -47,12 +47,48 @@ func runC08(c *Ctx) {
 			vk = cl
 		}
 	}
+	// the verification may live in a same-package helper that is handed the keys ("verification unit")
+	unit := fn
+	site := check
+	if check == nil && vk != nil {
+		for _, cl := range Calls(fn) {
+			h := cl.Fn
+			if h == nil || h.Pkg != fn.Pkg || len(h.Blocks) == 0 || h == fn {
+				continue
+			}
+			for _, hc := range Calls(h) {
+				if strings.HasSuffix(hc.Name, "openpgp.CheckDetachedSignature") || strings.HasSuffix(hc.Name, "openpgp.CheckArmoredDetachedSignature") {
+					check, unit, site = hc, h, cl
+				}
+			}
+		}
+	}
 	if check == nil || vk == nil {
 		c.Violate("R8.1", "readOperationPack:verification", pos, "no signature verification (ValidKeysAtTime + CheckDetachedSignature) found")
 		return
 	}
 	c.Sites += 2
 	keys := vk.Value()
+	// the keys as the verification unit sees them
+	var keysInUnit ssa.Value = keys
+	if unit != fn {
+		keysInUnit = nil
+		for i, a := range site.Instr.Common().Args {
+			if a == keys && i < len(unit.Params) {
+				keysInUnit = unit.Params[i]
+			}
+		}
+		if keysInUnit == nil {
+			c.Violate("R8.1", "readOperationPack:verification", w.InstrPos(site.Instr), "the helper that verifies the signature is not handed the keys valid at the commit's time")
+			return
+		}
+		c.seeFn(funcName(unit))
+		// inside the helper: no success without the check, its error returned, nothing but refusals before it
+		isChk := func(i ssa.Instruction) bool { return i == check.Instr }
+		badH, pH, _ := pathAvoiding(unit, nil, isSuccessReturn, isChk)
+		c.Check(!badH, "R8.1", "readOperationPack:helper-always-verifies", w.InstrPos(check.Instr), "the helper cannot succeed without CheckDetachedSignature", "the helper holding the verification can return success without verifying: "+blocksString(w, pH))
+		c.Check(errorPropagated(check.Value(), nil), "R8.1", "readOperationPack:helper-returns-verification-error", w.InstrPos(check.Instr), "verification failure is returned", "the result of CheckDetachedSignature is ignored inside the helper")
+	}
 	// the len(keys) branch
 	var lenIf *ssa.If
 	keysEdge := -1
@@ -94,7 +130,7 @@ func runC08(c *Ctx) {
 		return
 	}
 	kb := lenIf.Block().Succs[keysEdge]
-	isCheck := func(i ssa.Instruction) bool { return i == check.Instr }
+	isCheck := func(i ssa.Instruction) bool { return i == site.Instr }
 	bad, p, _ := pathSearch(fn, nil, kb, isSuccessReturn, isCheck, false)
 	okDom := true
 	for _, r := range Returns(fn) {
@@ -102,11 +138,11 @@ func runC08(c *Ctx) {
 			okDom = false
 		}
 	}
-	c.Check(!bad && okDom, "R8.1", "readOperationPack:verified-before-success", w.InstrPos(check.Instr), "with a key in force, success is only reachable through CheckDetachedSignature", "a success return is reachable with keys in force but without verification: "+blocksString(w, p))
-	c.Check(errorPropagated(check.Value(), nil), "R8.1", "readOperationPack:verification-error-returned", w.InstrPos(check.Instr), "verification failure is returned as an error", "the result of CheckDetachedSignature is ignored")
+	c.Check(!bad && okDom, "R8.1", "readOperationPack:verified-before-success", w.InstrPos(site.Instr), "with a key in force, success is only reachable through CheckDetachedSignature", "a success return is reachable with keys in force but without verification: "+blocksString(w, p))
+	c.Check(errorPropagated(site.Value(), nil), "R8.1", "readOperationPack:verification-error-returned", w.InstrPos(site.Instr), "verification failure is returned as an error", "the result of CheckDetachedSignature is ignored")
 	// conditional on nothing else
 	other := ""
-	for _, cc := range controlConds(check.Block(), nil) {
+	for _, cc := range controlConds(site.Block(), nil) {
 		if cc.If == lenIf || isLoopHeader(cc.If.Block()) {
 			continue
 		}
@@ -115,7 +151,7 @@ func runC08(c *Ctx) {
 		}
 		other = w.InstrPos(cc.If)
 	}
-	c.Check(other == "", "R8.1", "readOperationPack:verification-unconditional", w.InstrPos(check.Instr), "verification depends only on keys being in force", "verification is additionally conditional on "+other)
+	c.Check(other == "", "R8.1", "readOperationPack:verification-unconditional", w.InstrPos(site.Instr), "verification depends only on keys being in force", "verification is additionally conditional on "+other)
 
 	// R8.2
 	vargs := vk.Args()
@@ -163,7 +199,7 @@ func runC08(c *Ctx) {
 		}
 		fromKeys := false
 		for _, o := range origins(pc.Common().Args[0]) {
-			if o.Kind == "call" && o.Val == ssa.Value(vk.Value()) {
+			if o.Val == keysInUnit {
 				fromKeys = true
 			}
 		}
@@ -178,7 +214,7 @@ func runC08(c *Ctx) {
 	// R8.3
 	for _, f := range []string{"SignedData", "Signature"} {
 		ok := false
-		for _, g := range cmpGuards(fn, nil) {
+		for _, g := range cmpGuards(unit, nil) {
 			gg, o := g.oriented(func(v ssa.Value) bool { return hasField(v, f) && !hasField(v, "SignedData") == (f != "SignedData") })
 			if !o || !isNilConst(gg.Y) || gg.Op != token.EQL {
 				continue
